@@ -51,7 +51,6 @@ Variable doc : xdoc.
 Hypothesis Hinv : DocInv doc.
 Hypothesis Hshape : SpecShape doc.
 Hypothesis Hnames : NamesOk doc.
-Hypothesis Hparents : ParentsOk doc.
 Let Hwf := inv_wf doc Hinv.
 
 Notation T := (T doc).
@@ -447,7 +446,7 @@ Lemma tested_sorted ns a t (n : node) : ns_lookup ns None = None -> T n -> not_n
     (if is_reverse (axis_of a) then rev cands else cands) = map Row (axis_sort doc a r).
 Proof.
   intros Hnd Tn Ha Ht. apply test_ok_bound in Ht.
-  destruct (axis_agrees doc Hinv Hshape Hparents a n Tn Ha) as [l [l' [El [Hnodup [HT [Es [Hinc Hin]]]]]]].
+  destruct (axis_agrees doc Hinv Hshape a n Tn Ha) as [l [l' [El [Hnodup [HT [Es [Hinc Hin]]]]]]].
   assert (HT' : Forall T l').
   { apply Forall_forall. intros x Hx. rewrite Forall_forall in HT. apply HT. apply Hin. exact Hx. }
   destruct (filter_agrees doc Hnames ns Hnd a t Ht l (T_good_list doc Hinv Hshape l HT)) as [r [Er [_ Hr]]].
